@@ -143,6 +143,12 @@ func c01Sinks() []c01Sink {
 		{name: "rawtext-noframes", tpl: func(a, b string) string { return `<div v-for="x in vs"><noframes data-m="1">` + a + `{{ x }}` + b + `</noframes></div><p>after</p>` }},
 		{name: "rawtext-noscript", tpl: func(a, b string) string { return `<div v-if="yes"><noscript data-m="1">` + a + `{{ v }}` + b + `</noscript></div><p>after</p>` }},
 		{name: "rcdata-textarea", tpl: func(a, b string) string { return `<textarea data-m="1">` + a + `{{ v }}` + b + `</textarea><p>after</p>` }},
+		// whitespace-preserving elements are written by a separate serialiser path
+		{name: "pre-text", tpl: func(a, b string) string { return `<pre><code data-m="1">` + a + `{{ v }}` + b + `</code></pre><p>after</p>` }},
+		{name: "pre-v-text", tpl: func(a, b string) string { return `<pre><code data-m="1" v-text="v">old</code></pre><p>after</p>` }},
+		{name: "pre-v-text-loop", tpl: func(a, b string) string { return `<pre><code data-m="1" v-for="x in vs" v-text="x">old</code></pre><p>after</p>` }},
+		{name: "pre-attr-bound", attr: "title", tpl: func(a, b string) string { return `<pre><code data-m="1" :title="v" title2="{{ v }}">t</code></pre><p>after</p>` }},
+		{name: "textarea-v-text", tpl: func(a, b string) string { return `<textarea data-m="1" v-text="v">old</textarea><p>after</p>` }},
 		{name: "rawtext-include-prop", files: map[string]string{"raw.vuego": `<xmp data-m="1">[{{ u }}]</xmp><p>after</p>`}, tpl: func(a, b string) string { return `<template include="raw.vuego" :u="v"></template>` }},
 		{name: "chain-branch-v-text", tpl: func(a, b string) string { return `<p v-if="no">n</p><p data-m="1" v-else v-text="v">old</p>` }},
 	}
@@ -402,7 +408,7 @@ func runC01(r *Run) {
 				dec := func(s string) string { return stdhtml.UnescapeString(s) }
 				want := dec(nb[0]) + v + dec(nb[1])
 				switch sk.name {
-				case "v-text", "attr-bound", "for-child-attr", "include-bound-prop-attr", "chain-branch-v-text", "slot-twice-include-prop-attr":
+				case "v-text", "attr-bound", "for-child-attr", "include-bound-prop-attr", "chain-branch-v-text", "slot-twice-include-prop-attr", "pre-v-text", "pre-v-text-loop", "pre-attr-bound", "textarea-v-text":
 					want = v
 				case "attr-bound-class-merge":
 					want = "k " + v
@@ -417,7 +423,7 @@ func runC01(r *Run) {
 				if sk.name == "rawtext-include-prop" && (strings.TrimSpace(v) == "" || strings.HasPrefix(v, "{") || strings.HasPrefix(v, "[")) {
 					want = sink
 				}
-				if sk.attr != "" && strings.TrimSpace(v) == "" && (sk.name == "attr-bound" || sk.name == "for-child-attr" || sk.name == "for-root" || sk.name == "include-bound-prop-attr") {
+				if sk.attr != "" && strings.TrimSpace(v) == "" && (sk.name == "attr-bound" || sk.name == "pre-attr-bound" || sk.name == "for-child-attr" || sk.name == "for-root" || sk.name == "include-bound-prop-attr") {
 					want = sink // a falsy bound value omits the attribute (C14)
 				}
 				if (sk.name == "include-static-prop" || sk.name == "slot-in-loop-include-prop") && (strings.HasPrefix(v, "{") || strings.HasPrefix(v, "[")) {
